@@ -13,13 +13,15 @@ from . import e2, e3
 
 PROPERTY = "C13"
 LEVEL = "other"
-FILES = r"^%s/cds/(intrusive/(impl/(michael_list|lazy_list|iterable_list)|michael_list_\w+|lazy_list_\w+)\.h|urcu/)" % _run.REPO
+FILES = (r"^%s/cds/(intrusive/(impl/(michael_list|lazy_list|iterable_list)|michael_list_\w+|lazy_list_\w+)\.h|"
+         r"container/(impl/)?(michael|lazy|iterable)_(kv)?list(_\w+)?\.h|urcu/)" % _run.REPO)
 NEED_BELIEF = True
 TUS = {"quick": ["test/unit/intrusive-list/intrusive_michael_hp.cpp", "test/unit/intrusive-list/intrusive_lazy_dhp.cpp",
                  "test/unit/intrusive-list/intrusive_iterable_hp.cpp", "test/unit/intrusive-list/intrusive_michael_rcu_gpb.cpp",
-                 "test/unit/intrusive-list/intrusive_lazy_rcu_gpb.cpp"],
+                 "test/unit/intrusive-list/intrusive_lazy_rcu_gpb.cpp", "test/unit/list/michael_rcu_gpb.cpp", "test/unit/list/kv_lazy_rcu_gpb.cpp"],
        "thorough": ["test/unit/intrusive-list/*.cpp", "test/unit/list/*.cpp"]}
-BELIEF_TUS = {"quick": ["test/unit/intrusive-list/intrusive_michael_rcu_gpb.cpp", "test/unit/intrusive-list/intrusive_lazy_rcu_gpb.cpp"],
+BELIEF_TUS = {"quick": ["test/unit/intrusive-list/intrusive_michael_rcu_gpb.cpp", "test/unit/intrusive-list/intrusive_lazy_rcu_gpb.cpp",
+                        "test/unit/list/michael_rcu_gpb.cpp", "test/unit/list/kv_lazy_rcu_gpb.cpp"],
               "thorough": ["test/unit/intrusive-list/*rcu*.cpp", "test/unit/list/*rcu*.cpp"]}
 EXPLANATION = (
     "Structural clauses only. HP/DHP lists: a link read from a shared atomic is dereferenced only after hazard-pointer protection on every "
@@ -40,13 +42,13 @@ def contract():
 
 
 def _lists(ctx):
-    return [f for f in ctx.db.funcs.values() if re.match(r"cds::intrusive::(MichaelList|LazyList|IterableList)::", f.q)]
+    return [f for f in ctx.db.funcs.values() if re.match(r"cds::(intrusive|container)::(Michael|Lazy|Iterable)(KV)?List::", f.q)]
 
 
 def exempt_nonretirable(F, e, ld):
     """IterableList never retires its nodes while the list lives (only the data they point to): walking node->next needs no guard"""
     return F.q.startswith("cds::intrusive::IterableList::") and re.search(r"(\.|->)next\.load", F.text(ld.node) + " ") is not None and \
-        re.search(r"(\.|->)(next|data)\.", F.text(e.node) + " ") is not None
+        re.search(r"(\.|->)(next|data)\b", F.text(e.node) + " ") is not None
 
 
 def r13_1(ctx):
@@ -88,7 +90,22 @@ def r13_3(ctx):
             for i, e in enumerate(ev):
                 if e.kind == "call" and e.q and re.search(r"::(retire_node|dispose_node)$", e.q):
                     n += 1
-                    before = [j for j in cas if j < i and _won(p, ev[j]) is True]
+                    # the CAS that replaces *this* node (its expected value is the node being retired) must have been won by this thread
+                    proj = {x.val: x.obj for x in ev[:i] if x.kind == "call" and x.q and e2.PROJ.search(x.q) and x.obj is not None}
+
+                    def canon(sv, d=0):
+                        if d > 12:
+                            return sv
+                        if sv in proj:
+                            return canon(proj[sv], d + 1)
+                        if isinstance(sv, tuple):
+                            sv = noepoch(sv)
+                            if sv[:1] == ("obj",) and len(sv) > 2 and isinstance(sv[2], tuple) and len(sv[2]) >= 1 and str(sv[1]).endswith("marked_ptr"):
+                                return canon(sv[2][0], d + 1)      # marked_ptr(p[, bits]) names p
+                            return tuple(canon(x, d + 1) if isinstance(x, tuple) else x for x in sv)
+                        return sv
+                    tgt = canon(e.args[0]) if e.args else None
+                    before = [j for j in cas if j < i and _won(p, ev[j]) is True and ev[j].args and canon(ev[j].args[0]) == tgt]
                     ctx.check(bool(before), "R13.3", F, "a node is retired only after this thread's unlinking CAS succeeded", e.node, detail=R, sig="retire-after-unlink")
             if F.q.endswith("::unlink_node") and F.gc_kind() != "nogc":
                 won = [j for j in cas if _won(p, ev[j]) is True]
@@ -109,15 +126,32 @@ def r13_3(ctx):
 r13_3.rule_id = "R13.3"
 
 
+def raii_lock_classes(db):
+    """classes whose constructor locks and whose destructor unlocks (found structurally, not by name)"""
+    locks, unlocks = set(), set()
+    for F in db.funcs.values():
+        if F.kind == "ctor" and Q.calls_in(F, r"::lock$"):
+            locks.add(F.cls)
+        elif F.kind == "dtor" and Q.calls_in(F, r"::unlock$"):
+            unlocks.add(F.cls)
+    return (locks & unlocks) | {"std::unique_lock", "std::lock_guard"}
+
+
 def r13_4(ctx):
     """LazyList: mutations under the position lock and after validate(); retire outside the lock, on success"""
     n = 0
+    raii = raii_lock_classes(ctx.db)
+    if not any("LazyList" in c for c in raii):
+        ctx.broken("no RAII position-lock class found in LazyList")
     for F in ctx.db.funcs.values():
         if not re.match(r"cds::intrusive::LazyList::", F.q):
             continue
         if not Q.calls_in(F, r"LazyList::(link_node|unlink_node)$"):
             continue
         if F.q.split("::")[-1] in ("link_node", "unlink_node"):
+            continue
+        if F.q.split("::")[-1] == "clear":
+            # clear() is not among the operations C13 quantifies over (it locks head+first without re-validating: see DESIGN.md, observations)
             continue
         try:
             ps = PathSim(F, bound=4000).run()
@@ -130,7 +164,7 @@ def r13_4(ctx):
             dl = []
             for e in ev:
                 dl.append(depth)
-                if e.kind == "var" and e.extra and re.search(r"scoped_position_lock$|unique_lock$|lock_guard$", str(e.extra[1] or "")):
+                if e.kind == "var" and e.extra and str(e.extra[1] or "") in raii:
                     live[e.obj] = 1
                     depth += 1
                 elif e.kind == "dtor" and e.obj in live:
@@ -153,5 +187,33 @@ def r13_4(ctx):
 r13_4.rule_id = "R13.4"
 
 
-RULES = [r13_1, r13_2, r13_3, r13_4]
-FLOORS = {"R13.1": 30, "R13.2": 100, "R13.3": 10, "R13.4": 10}
+def r13_5(ctx):
+    """the premise of R13.1's IterableList exemption: list nodes are freed only by the (single-threaded) destroy()/destructor, or when they
+    were never published (allocated on this path and the publishing CAS failed / was never attempted)"""
+    n = 0
+    for F in ctx.db.funcs.values():
+        if not F.q.startswith("cds::intrusive::IterableList::") or not Q.calls_in(F, r"IterableList::delete_node$"):
+            continue
+        name = F.q.split("::")[-1]
+        if name in ("destroy", "~IterableList"):
+            n += 1
+            ctx.ok("R13.5", F, "nodes are freed by the tear-down routine", None, sig="node-free-teardown")
+            continue
+        for p in PathSim(F, bound=2000).run():
+            ev = p.events
+            for i, e in enumerate(ev):
+                if e.kind == "call" and e.q and e.q.endswith("IterableList::delete_node"):
+                    n += 1
+                    a = e.args[0] if e.args else None
+                    fresh = any(x.kind == "call" and x.val == a and x.q and x.q.endswith("::alloc_node") for x in ev[:i])
+                    pub = [x for x in ev[:i] if x.kind == "call" and (atomic_op(x) or "").startswith("compare_exchange") and x.args and len(x.args) > 1 and x.args[1] == a]
+                    lost = all(_won(p, x) is False for x in pub)
+                    ctx.check(fresh and lost, "R13.5", F, "an IterableList node is freed outside tear-down only if it was allocated here and never published", e.node,
+                              detail="traversals walk node->next without guards because nodes outlive every operation. " + R, sig="node-free-unpublished")
+    if n < 3:
+        ctx.broken("IterableList::delete_node call sites not found (%d)" % n)
+r13_5.rule_id = "R13.5"
+
+
+RULES = [r13_1, r13_2, r13_3, r13_4, r13_5]
+FLOORS = {"R13.1": 30, "R13.2": 100, "R13.3": 10, "R13.4": 10, "R13.5": 3}
